@@ -768,8 +768,6 @@ fn main() {
     std::panic::set_hook(Box::new(|_| {}));
     let careful = args.iter().any(|a| a == "--flush");
     let stdin = std::io::stdin();
-    let stdout = std::io::stdout();
-    let mut out = std::io::BufWriter::with_capacity(1 << 16, stdout.lock());
     let log: Log = Arc::new(Mutex::new(Vec::new()));
     let mut ctxs: HashMap<String, Ctx> = HashMap::new();
     // run on a thread with a known stack size so that deep-input behaviour is reproducible
@@ -786,6 +784,7 @@ fn main() {
                 };
                 if careful {
                     println!("{}", r);
+                    std::io::stdout().flush().ok();
                 } else {
                     res.push(r);
                 }
@@ -794,6 +793,8 @@ fn main() {
         })
         .unwrap();
     let res = h.join().unwrap();
+    let stdout = std::io::stdout();
+    let mut out = std::io::BufWriter::with_capacity(1 << 16, stdout.lock());
     for r in res {
         writeln!(out, "{}", r).unwrap();
     }
